@@ -370,6 +370,47 @@ func (g *opw) dupMemberSegment() {
 	g.after()
 }
 
+// inactiveCarrySegment: a member of the current group idles on a signing, the attempt times out and the member is
+// deactivated (and stays so: nobody re-activates it); then a transition to a new group that contains the same account
+// runs its full course (key generation, hand-over signed by the remaining members -> WAITING_EXECUTION, where the incoming
+// members are registered -> execution). The activity flags of bandtss and x/tss must keep agreeing group by group.
+func (g *opw) inactiveCarrySegment() {
+	rt, c := g.rt, g.c
+	c.HasCur, c.CurN = true, 3
+	if c.CurT > 2 {
+		c.CurT = 2 // the two remaining members can still sign the hand-over
+	}
+	if c.SignPeriod > 3 {
+		c.SignPeriod = gen.Range(rt, "signps", 1, 3)
+	}
+	if c.Max < c.Min+9 {
+		c.Max = c.Min + 9
+	}
+	if c.Creation < 6 {
+		c.Creation = 6
+	}
+	g.emit(op{K: "actall"}, op{K: "desall", B: 3}, op{K: "end", A: 1})
+	g.emit(op{K: "req", A: gen.Uniform(rt, "u", nReq)}, op{K: "end", A: 1})
+	// every assignee but the first submits its share: the attempt cannot complete and the first assignee is idle
+	g.emit(op{K: "sign", Mask: 0x0e})
+	for i := 0; i <= c.SignPeriod; i++ {
+		g.emit(op{K: "end", A: 1})
+	}
+	// a retried attempt (MaxSigningAttempt > 1) is signed by everybody, so that nobody else is deactivated
+	g.emit(op{K: "sign", Mask: 0xff}, op{K: "end", A: 1})
+	// the new group: the accounts of the current group plus one more
+	g.emit(op{K: "propT", Ms: g.execMs(), Mask: 0x0f, A: gen.Uniform(rt, "thr", 4), B: gen.Range(rt, "offi", 7, 9)}, op{K: "end", A: 1}, op{K: "endv"})
+	for r := 0; r < 3; r++ {
+		g.emit(op{K: "dkg", Mask: 0xff}, op{K: "end", A: 1})
+	}
+	g.emit(op{K: "sign", Mask: 0xff}, op{K: "end", A: 1})
+	if gen.Chance(rt, "reqWE", 1, 2) {
+		g.emit(op{K: "req", A: gen.Uniform(rt, "u", nReq)}, op{K: "end", A: 1})
+	}
+	g.endx(gen.OneOf(rt, "xn", 0, 0, 1))
+	g.after()
+}
+
 // Selectors of MsgForceTransitionGroup targets that are NOT groups with a finished key generation (late-bound in
 // blockBuilder.build; when no such group exists the selector falls back to "any group").
 const (
@@ -587,7 +628,9 @@ func genC18(rt *rapid.T) c18Case {
 	for i := 0; i < nseg; i++ {
 		g.starve = gen.Chance(rt, "starve", 1, 4)
 		g.segStart = len(g.ops)
-		switch gen.Pick(rt, "seg", 6, 3, 1, 1, 4, 4) {
+		switch gen.Pick(rt, "seg", 6, 3, 1, 1, 4, 4, 2) {
+		case 6:
+			g.inactiveCarrySegment()
 		case 5:
 			g.dupMemberSegment()
 		case 4:
